@@ -161,9 +161,10 @@ func init() {
 				s.args = []c18Arg{{"polynomials", &polys}, {"digests", &digests}, {"point", &points[0]}, {"srs", srs}, {"dataTranscript", &data}}
 				s.call = func() string {
 					pr, err := kzg.BatchOpenSinglePoint(polys, digests, points[0], sha256.New(), srs.Pk, data...)
+					hpr := deepHash(&pr) // (before the verifier and the folder see the proof: they must leave it alone)
 					err1 := kzg.BatchVerifySinglePoint(digests, &pr, points[0], sha256.New(), srs.Vk, data...)
 					fpr, fd, err2 := kzg.FoldProof(digests, &pr, points[0], sha256.New(), data...)
-					return deepHash(&pr) + c18Err(err) + c18Err(err1) + deepHash(&fpr) + deepHash(&fd) + c18Err(err2)
+					return hpr + c18Mark(deepHash(&pr) == hpr, "verifier-changed-proof") + c18Err(err) + c18Err(err1) + deepHash(&fpr) + deepHash(&fd) + c18Err(err2)
 				}
 			}
 			return s
@@ -615,8 +616,9 @@ func init() {
 		s := &c18Sess{args: []c18Arg{{"f", &f}, {"t", &t}, {"srs", srs}}}
 		s.call = func() string {
 			proof, err := plookup.ProveLookupVector(srs.Pk, f, t)
+			hp := deepHash(&proof) // (before the verifier sees the proof: it must leave it alone)
 			err1 := plookup.VerifyLookupVector(srs.Vk, proof)
-			return deepHash(&proof) + c18Err(err) + c18Err(err1)
+			return hp + c18Mark(deepHash(&proof) == hp, "verifier-changed-proof") + c18Err(err) + c18Err(err1)
 		}
 		return s
 	})
@@ -648,8 +650,9 @@ func init() {
 		s := &c18Sess{args: []c18Arg{{"f", &f}, {"t", &t}, {"srs", srs}}}
 		s.call = func() string {
 			proof, err := plookup.ProveLookupTables(srs.Pk, f, t)
+			hp := deepHash(&proof)
 			err1 := plookup.VerifyLookupTables(srs.Vk, proof)
-			return deepHash(&proof) + c18Err(err) + c18Err(err1)
+			return hp + c18Mark(deepHash(&proof) == hp, "verifier-changed-proof") + c18Err(err) + c18Err(err1)
 		}
 		return s
 	})
@@ -670,8 +673,9 @@ func init() {
 		s := &c18Sess{args: []c18Arg{{"t1", &t1}, {"t2", &t2}, {"srs", srs}}}
 		s.call = func() string {
 			proof, err := permutation.Prove(srs.Pk, t1, t2)
+			hp := deepHash(&proof)
 			err1 := permutation.Verify(srs.Vk, proof)
-			return deepHash(&proof) + c18Err(err) + c18Err(err1)
+			return hp + c18Mark(deepHash(&proof) == hp, "verifier-changed-proof") + c18Err(err) + c18Err(err1)
 		}
 		return s
 	})
@@ -688,9 +692,10 @@ func init() {
 			iopp := fri.RADIX_2_FRI.New(uint64(n), sha256.New())
 			pp, err := iopp.BuildProofOfProximity(p)
 			op, err1 := iopp.Open(p, pos)
+			hp := deepHash(&pp) + deepHash(&op)
 			err2 := iopp.VerifyProofOfProximity(pp)
 			err3 := iopp.VerifyOpening(pos, op, pp)
-			return deepHash(&pp) + c18Err(err) + deepHash(&op) + c18Err(err1) + c18Err(err2) + c18Err(err3)
+			return hp + c18Mark(deepHash(&pp)+deepHash(&op) == hp, "verifier-changed-proof") + c18Err(err) + c18Err(err1) + c18Err(err2) + c18Err(err3)
 		}
 		return s
 	})
@@ -723,8 +728,9 @@ func init() {
 		s := &c18Sess{args: []c18Arg{{"polynomials", &polys}, {"digests", &digests}, {"points", &points}, {"srs", srs}, {"dataTranscript", &data}}}
 		s.call = func() string {
 			proof, err := shplonk.BatchOpen(polys, digests, points, sha256.New(), srs.Pk, data...)
+			hp := deepHash(&proof)
 			err1 := shplonk.BatchVerify(proof, digests, points, sha256.New(), srs.Vk, data...)
-			return deepHash(&proof) + c18Err(err) + c18Err(err1)
+			return hp + c18Mark(deepHash(&proof) == hp, "verifier-changed-proof") + c18Err(err) + c18Err(err1)
 		}
 		return s
 	})
@@ -765,8 +771,9 @@ func init() {
 			fo := fflonk.Fold(p[0])
 			d0, err0 := fflonk.FoldAndCommit(p[nbSets-1], srs.Pk)
 			proof, err := fflonk.BatchOpen(p, digests, points, sha256.New(), srs.Pk, data...)
+			hp := deepHash(&proof)
 			err1 := fflonk.BatchVerify(proof, digests, points, sha256.New(), srs.Vk, data...)
-			return deepHash(&fo) + deepHash(&d0) + c18Err(err0) + deepHash(&proof) + c18Err(err) + c18Err(err1)
+			return deepHash(&fo) + deepHash(&d0) + c18Err(err0) + hp + c18Mark(deepHash(&proof) == hp, "verifier-changed-proof") + c18Err(err) + c18Err(err1)
 		}
 		return s
 	})
@@ -945,7 +952,7 @@ func init() {
 			mp := ml.Clone()
 			task := mp.FoldParallel(c)
 			c18WorkerPool().Submit(len(mp), task, 1+len(mp)/37).Wait()
-			out += boolStr(deepHash(&mp) == deepHash(&mc))
+			out += c18Mark(deepHash(&mp) == deepHash(&mc), "foldparallel-differs-from-fold")
 			var eq polynomial.MultiLin = make([]fr.Element, 1<<nv)
 			eq[0].SetOne()
 			eq.Eq(q)
